@@ -47,6 +47,47 @@ func (k ppKeys) port(w bool) string      { return "call:origins.parsePort(" + k.
 func (k ppKeys) hostNoDot() string {
 	return "call:strings.TrimSuffix(" + k.host(true) + `, ".")`
 }
+
+// wildcardCap classifies a branch condition as the cap on the base domain of
+// a `*.` pattern: +1 when it compares the domain's length WITHOUT its trailing
+// dot with 251 (the documented defect), -1 when it is a cap that counts the
+// dot (or another bound), 0 when it is not a length cap on that host at all.
+// Recognised: C < len(X)+d or len(X)+d > C spelled with <, where X is the
+// host or strings.TrimSuffix(host, "."); with the bare host the path must know
+// whether the host ends in a dot (strings.HasSuffix), and the bound moves by one.
+func (k ppKeys) wildcardCap(pa *Path, a Atom) int {
+	t := a.T
+	if t.Op != "bin" || t.Name != "<" || len(t.Args) != 2 || !a.Pos {
+		return 0
+	}
+	// C < E   (a positive atom; `E <= C` negated arrives in this form too)
+	cT, e := t.Args[0], t.Args[1]
+	if cT.Op != "const" {
+		return 0
+	}
+	c, err := strconv.ParseInt(cT.Name, 10, 64)
+	if err != nil {
+		return 0
+	}
+	base, d := affine(e)
+	bound := c - d // len(X) > bound
+	switch base.Key() {
+	case "len:builtin.len(" + k.hostNoDot() + ")":
+		if bound == 251 {
+			return 1
+		}
+		return -1
+	case "len:builtin.len(" + k.host(true) + ")":
+		dot := pa.Val("call:strings.HasSuffix(" + k.host(true) + `, ".")`)
+		switch {
+		case dot == 1 && bound == 252, dot == -1 && bound == 251:
+			return 1
+		}
+		return -1
+	}
+	return 0
+}
+
 func (k ppKeys) toASCII(w bool) string {
 	return "call:(*golang.org/x/net/idna.Profile).ToASCII(*global:origins.profile, " + k.host(w) + ")"
 }
@@ -282,6 +323,32 @@ func checkC13(ctx *Ctx) *Result {
 				good, detail = false, "Reason is "+reason
 			}
 			rejReasons[reason]++
+			// the documented Reason of each defect: "prohibited" for what is
+			// well-formed but refused on purpose (`*`/null as a pattern, file,
+			// IPv4-mapped and non-canonical IP literals, hosts the IDNA profile
+			// refuses, the scheme's default port), "invalid" for everything else
+			if len(pa.Atoms) > 0 && good {
+				la := pa.Atoms[len(pa.Atoms)-1]
+				lk := la.T.Key()
+				want := `"invalid"`
+				switch {
+				case lk == `bin:==(param:str, "*")`, lk == `bin:==(param:str, "null")`, lk == `bin:==(`+k.S+`#0, "file")`,
+					strings.HasPrefix(lk, "call:(net/netip.Addr).Is4In6("), strings.HasPrefix(lk, "bin:==(call:(net/netip.Addr).String("),
+					strings.Contains(lk, "idna.Profile).ToASCII("):
+					want = `"prohibited"`
+				}
+				for _, w := range []bool{false, true} {
+					if pa.Val("bin:==("+k.port(w)+"#0, 80)") == 1 && pa.Val(`bin:==(`+k.S+`#0, "http")`) == 1 ||
+						pa.Val("bin:==("+k.port(w)+"#0, 443)") == 1 && pa.Val(`bin:==(`+k.S+`#0, "https")`) == 1 {
+						if strings.HasPrefix(lk, "bin:==("+k.S+"#0, ") || strings.HasPrefix(lk, "bin:==("+k.port(w)+"#0, ") {
+							want = `"prohibited"`
+						}
+					}
+				}
+				if reason != want {
+					good, detail = false, "the rejection decided by "+la.String()+" carries Reason "+reason+", the documented Reason of that defect is "+want
+				}
+			}
 		}
 		if z := pa.Rets[0].Key(); z != "*global:origins.zeroPattern" && z != "zero" {
 			good, detail = false, "a rejection returns a non-zero pattern: "+z
@@ -327,6 +394,14 @@ func checkC13(ctx *Ctx) *Result {
 			// measured with or without the trailing dot (R13.10 decides which is right)
 			if pa.Val("bin:<(251, len:builtin.len("+k.host(true)+"))") == -1 || pa.Val("bin:<(251, len:builtin.len("+k.hostNoDot()+"))") == -1 {
 				return ""
+			}
+			// … or spelled with a subtraction for the dot: a negated cap atom on the path
+			for _, a := range pa.Atoms {
+				pos := a
+				pos.Pos = true
+				if !a.Pos && k.wildcardCap(pa, pos) != 0 {
+					return ""
+				}
 			}
 			return "no 251-byte cap on the base domain of a `*.` pattern"
 		}},
@@ -470,6 +545,9 @@ func checkC13(ctx *Ctx) *Result {
 					found = true
 				}
 			}
+			if k.wildcardCap(pa, la) == 1 {
+				found = true
+			}
 			detail := "a pattern is rejected because of " + la.String() + ", which is none of the documented defects: patterns of the documented form would be refused"
 			if la.Pos && la.T.Key() == "bin:<(251, len:builtin.len("+k.host(true)+"))" {
 				detail = "the 251-byte cap on the base domain of a `*.` pattern is applied to the host including its trailing dot: `*.` + a 251-byte domain + `.` is of the documented form (a domain's length does not count the trailing dot) and is refused"
@@ -518,6 +596,37 @@ func checkC13(ctx *Ctx) *Result {
 		}
 		if get("Port") != wantPort {
 			bad = "Pattern.Port is " + get("Port") + ", expected " + wantPort
+		}
+		// the host pattern kept is the text that was lexed: the wildcard-free
+		// host in full (trailing dot included), preceded by its `*.` if any; an
+		// IP literal in netip's canonical text
+		{
+			hv := fieldOf(fieldOf(pat, "HostPattern"), "Value")
+			hostArg := k.hostArg(false) // what follows `://`
+			wantHV := ""
+			switch {
+			case w:
+				wantHV = "slice(" + hostArg + ", _, bin:+(len:builtin.len(" + k.host(true) + "), 2), _)"
+			case pa.Val(k.isIP(false)) == 1:
+				wantHV = "call:(net/netip.Addr).String(" + k.addr(false) + "#0)"
+			default:
+				wantHV = "slice(" + hostArg + ", _, len:builtin.len(" + k.host(false) + "), _)"
+			}
+			if got := hv.Key(); got != wantHV && got != k.host(false) {
+				bad = "the host pattern kept is not the host as lexed (a trailing dot or the `*.` would be lost or text added): " + got
+			}
+		}
+		// an IP host is classified by netip's IsLoopback and nothing else (the
+		// "deemed insecure" exemption hangs on that kind)
+		if !w && pa.Val(k.isIP(false)) == 1 {
+			kind := fieldOf(fieldOf(pat, "HostPattern"), "Kind").Key()
+			lb := pa.Val("call:(net/netip.Addr).IsLoopback(" + k.addr(false) + "#0)")
+			switch {
+			case lb == 1 && kind != "2", lb == -1 && kind != "1":
+				bad = fmt.Sprintf("an IP host is given kind %s on a path where IsLoopback is %+d (loopback = 2, non-loopback = 1)", kind, lb)
+			case lb == 0:
+				bad = "an IP host is classified without consulting netip.Addr.IsLoopback: kind " + kind
+			}
 		}
 	}
 	r.check(bad == "", "R13.4", "accepted pattern assembled from the lexed scheme and port", p.Pos(fn.Pos()), bad, nOK)
@@ -612,6 +721,40 @@ func checkC13(ctx *Ctx) *Result {
 		if got != wantPort {
 			badAsm = "Origin.Port is " + got + ", expected " + wantPort + " (the port as written; 0 only when none is written)"
 		}
+	}
+	// every refusal of Parse is decided by a documented defect: too long, no
+	// scheme, no `://`, no host, or something after the host that is not `:`
+	// port with nothing left over
+	{
+		okLast := map[string]bool{}
+		addL := func(key string, pos bool) { okLast[fmt.Sprint(pos, " ", key)] = true }
+		addL(S+"#2", false)
+		addL(cutOK(S+"#1", "://"), false)
+		addL(`call:strings.HasPrefix(`+S+`#1, "://")`, false)
+		addL(FH+"#2", false)
+		addL(cutOK(FH+"#1", ":"), false)
+		addL(`call:strings.HasPrefix(`+FH+`#1, ":")`, false)
+		addL("bin:==(index("+FH+"#1, 0), 58)", false)
+		addL(PORT+"#2", false)
+		addL(`bin:==(`+PORT+`#1, "")`, false)
+		badRej := ""
+		nRejP := 0
+		for _, pa := range pp {
+			if len(pa.Rets) != 2 || !pa.Rets[1].IsConst("false") || len(pa.Atoms) == 0 {
+				continue
+			}
+			nRejP++
+			la := pa.Atoms[len(pa.Atoms)-1]
+			if okLast[fmt.Sprint(la.Pos, " ", la.T.Key())] {
+				continue
+			}
+			// the length cap: a positive `C < len(str)` (or its spelling with the operands swapped, negated)
+			if la.T.Op == "bin" && la.T.Name == "<" && la.Pos && la.T.Args[0].Op == "const" && la.T.Args[1].Key() == "len:builtin.len(param:str)" {
+				continue
+			}
+			badRej = "an origin is refused because of " + la.String() + ", which is none of the documented defects (too long, scheme, `://`, host, port, trailing input): origins an accepted pattern denotes would be refused"
+		}
+		r.check(badRej == "", "R13.5", "Parse: every refusal is decided by a documented defect", p.Pos(pf.Pos()), badRej, nRejP)
 	}
 	r.check(badAsm == "", "R13.5", "Parse: the accepted origin is assembled from the lexed scheme, host and port", p.Pos(pf.Pos()), badAsm, nAcc)
 	r.check(badCap == "" && nAcc > 0, "R13.5", "Parse: overall length cap", p.Pos(pf.Pos()), badCap, len(pp))
